@@ -47,13 +47,18 @@ EXN = {
 
 
 class Tr:
-    def __init__(self, fam, cls, W, consts, ret_self=False, int_args=()):
+    def __init__(self, fam, cls, W, consts, ret_self=False, int_args=(), cls_node=None, helpers=None, extra_defs=None):
         self.fam, self.cls, self.W, self.consts = fam, cls, W, consts
         self.objs = {"self"}
         self.locals = set(int_args)
         self.ret_self = ret_self
         self.pending = []
         self.nfresh = 0
+        self.tuples = {}        # local name -> list of component terms (tuple-valued locals are kept symbolic)
+        self.cidr_locals = {}   # local name -> arg name, for  x = f"{str(self.ip_object)}/{arg}"
+        self.helpers = helpers if helpers is not None else {}   # shared: helper name -> (gallina name, kinds, ret kind)
+        self.cls_node = cls_node
+        self.extra_defs = extra_defs if extra_defs is not None else []
 
     # ---------------------------------------------------------------- expressions
     def attr_path(self, e):
@@ -112,6 +117,12 @@ class Tr:
             terms = [e.left] + e.comparators
             out = []
             for a, op, b in zip(terms, e.ops, terms[1:]):
+                ta_, tb_ = self.tuple_of(a), self.tuple_of(b)
+                if ta_ is not None or tb_ is not None:
+                    if ta_ is None or tb_ is None or len(ta_) != len(tb_) or not ta_:
+                        raise Unsupported("tuple comparison of different shapes")
+                    out.append(self.lex(ta_, tb_, op))
+                    continue
                 if isinstance(op, (ast.Is, ast.IsNot)) and isinstance(b, ast.Constant) and isinstance(b.value, bool):
                     t = self.expr(a)
                     pos = (b.value is True) == isinstance(op, ast.Is)
@@ -136,7 +147,7 @@ class Tr:
             return out[0] if len(out) == 1 else "(" + " && ".join(out) + ")"
         if isinstance(e, ast.Call):
             f = e.func
-            if isinstance(f, ast.Name) and f.id == "int" and len(e.args) == 1 and not e.keywords:
+            if isinstance(f, ast.Name) and f.id in ("int", "bool") and len(e.args) == 1 and not e.keywords:
                 return self.expr(e.args[0])
             if isinstance(f, ast.Name) and f.id == "getattr" and len(e.args) >= 2 and isinstance(e.args[1], ast.Constant):
                 return self.expr(ast.Attribute(value=e.args[0], attr=e.args[1].value))
@@ -144,6 +155,84 @@ class Tr:
                 return "true"       # typing assumption
             raise Unsupported("call " + ast.dump(f))
         raise Unsupported("expression " + type(e).__name__)
+
+    def tuple_of(self, e):
+        if isinstance(e, ast.Tuple):
+            return [self.expr(x) for x in e.elts]
+        if isinstance(e, ast.Name) and e.id in self.tuples:
+            return self.tuples[e.id]
+        return None
+
+    def lex(self, xs, ys, op):
+        """Python's lexicographic comparison of two equal-length tuples of integers."""
+        if isinstance(op, ast.Eq):
+            return "(" + " && ".join("(%s =? %s)" % (x, y) for x, y in zip(xs, ys)) + ")"
+        if isinstance(op, ast.NotEq):
+            return "(negb %s)" % self.lex(xs, ys, ast.Eq())
+        strict = {ast.Lt: "<?", ast.Gt: ">?", ast.LtE: "<?", ast.GtE: ">?"}
+        if type(op) not in strict:
+            raise Unsupported("tuple comparison " + type(op).__name__)
+        last = {ast.Lt: "<?", ast.Gt: ">?", ast.LtE: "<=?", ast.GtE: ">=?"}[type(op)]
+        def rec(i):
+            if i == len(xs) - 1:
+                return "(%s %s %s)" % (xs[i], last, ys[i])
+            return "((%s %s %s) || ((%s =? %s) && %s))" % (xs[i], strict[type(op)], ys[i], xs[i], ys[i], rec(i + 1))
+        return rec(0)
+
+    def helper_call(self, call):
+        """self._helper(args) / Cls._helper(args): translate the helper once as its own definition."""
+        f = call.func
+        if not (isinstance(f, ast.Attribute) and isinstance(f.value, ast.Name) and f.value.id in ("self", self.cls)):
+            return None
+        if self.cls_node is None or call.keywords:
+            return None
+        name = f.attr
+        node = None
+        for n in self.cls_node.body:
+            if isinstance(n, ast.FunctionDef) and n.name == name and not any(isinstance(d, ast.Attribute) and d.attr == "setter" for d in n.decorator_list):
+                node = n
+        if node is None:
+            return None
+        is_static = any(isinstance(d, ast.Name) and d.id == "staticmethod" for d in node.decorator_list)
+        if any(isinstance(d, ast.Name) and d.id == "property" for d in node.decorator_list):
+            return None
+        params = [a.arg for a in node.args.args]
+        if not is_static:
+            if not params or params[0] != "self" or f.value.id != "self":
+                return None
+        if name not in self.helpers:
+            kinds = []
+            for prm in params:
+                is_obj = prm == "self" or any(isinstance(x, ast.Attribute) and isinstance(x.value, ast.Name) and x.value.id == prm for x in ast.walk(node))
+                kinds.append("obj" if is_obj else "int")
+            rets = [x for x in ast.walk(node) if isinstance(x, ast.Return) and x.value is not None]
+            sub = Tr(self.fam, self.cls, self.W, self.consts, int_args=[p_ for p_, k in zip(params, kinds) if k == "int"],
+                     cls_node=self.cls_node, helpers=self.helpers, extra_defs=self.extra_defs)
+            sub.objs = {p_ for p_, k in zip(params, kinds) if k == "obj"}
+            gname = "gen_%s_h_%s" % (self.fam, name.strip("_"))
+            self.helpers[name] = (gname, kinds, None)        # (guards against recursion)
+            body = sub.block(node.body)
+            rkind = "obj" if sub.returned_obj else "val"
+            self.helpers[name] = (gname, kinds, rkind)
+            sig = " ".join("(%s : %s)" % (p_, "ipo" if k == "obj" else "Z") for p_, k in zip(params, kinds))
+            self.extra_defs.append((gname, "Definition %s %s :=\n  %s." % (gname, sig, body)))
+        gname, kinds, rkind = self.helpers[name]
+        if rkind is None:
+            raise Unsupported("recursive helper " + name)
+        args = ([ast.Name(id="self")] if not is_static else []) + list(call.args)
+        if len(args) != len(kinds):
+            raise Unsupported("helper arity " + name)
+        terms = []
+        for a, k in zip(args, kinds):
+            if k == "obj":
+                if not (isinstance(a, ast.Name) and a.id in self.objs):
+                    raise Unsupported("helper object argument")
+                terms.append(a.id)
+            else:
+                terms.append(self.expr(a))
+        return "(%s %s)" % (gname, " ".join(terms)), rkind
+
+    returned_obj = False
 
     def with_binds(self, mk):
         """Translate with `mk()` and wrap the result in the binds its expressions requested."""
@@ -153,6 +242,23 @@ class Tr:
         for v, t in reversed(binds):
             body = "(bind %s (fun %s => %s))" % (t, v, body)
         return body
+
+    def with_binds_pair(self, mk):
+        """Like with_binds for a maker returning (term, kind) or None; returns (term, kind, wrap) or None."""
+        saved, self.pending = self.pending, []
+        r = mk()
+        binds, self.pending = self.pending, saved
+        if r is None:
+            if binds:
+                raise Unsupported("derived property read in an untranslatable call")
+            return None
+        term, kind = r
+
+        def wrap(body):
+            for v, t in reversed(binds):
+                body = "(bind %s (fun %s => %s))" % (t, v, body)
+            return body
+        return term, kind, wrap
 
     # ---------------------------------------------------------------- statements
     def is_guard_loop(self, s):
@@ -174,6 +280,12 @@ class Tr:
         if set(kw) != {"strict"} or not (isinstance(kw["strict"], ast.Constant) and kw["strict"].value is False):
             return None
         js = v.args[0]
+        if isinstance(js, ast.Name) and js.id in self.cidr_locals:
+            return self.cidr_locals[js.id]
+        return self.cidr_arg(js)
+
+    def cidr_arg(self, js):
+        # f"{str(self.ip_object)}/{arg}"  -> "arg"
         if not (isinstance(js, ast.JoinedStr) and len(js.values) == 3):
             return None
         a, sep, b = js.values
@@ -201,7 +313,15 @@ class Tr:
             if s.value is None:
                 raise Unsupported("bare return")
             if isinstance(s.value, ast.Name) and s.value.id in self.objs:
+                self.returned_obj = True
                 return "(Ok %s)" % s.value.id
+            if isinstance(s.value, ast.Call):
+                hc = self.with_binds_pair(lambda: self.helper_call(s.value))
+                if hc is not None:
+                    term, rkind, wrap = hc
+                    if rkind == "obj":
+                        self.returned_obj = True
+                    return wrap(term)
             return self.with_binds(lambda: "(Ok %s)" % self.expr(s.value))
         if isinstance(s, ast.Raise):
             exc = s.exc
@@ -214,6 +334,23 @@ class Tr:
             t = s.targets[0]
             if isinstance(t, ast.Name):
                 v = s.value
+                if isinstance(v, ast.Tuple):
+                    def mk():
+                        self.tuples[t.id] = [self.expr(x) for x in v.elts]
+                        return self.block(rest)
+                    return self.with_binds(mk)
+                if isinstance(v, ast.JoinedStr) and self.cidr_arg(v) is not None:
+                    self.cidr_locals[t.id] = self.cidr_arg(v)
+                    return self.block(rest)
+                if isinstance(v, ast.Call):
+                    hc = self.with_binds_pair(lambda: self.helper_call(v))
+                    if hc is not None:
+                        term, rkind, wrap = hc
+                        if rkind == "obj":
+                            self.objs.add(t.id)
+                        else:
+                            self.locals.add(t.id)
+                        return wrap("(bind %s (fun %s => %s))" % (term, t.id, self.block(rest)))
                 if self.ctor_int(v) and v.func.id == self.cls:
                     def mk():
                         arg = self.expr(v.args[0])
@@ -311,9 +448,13 @@ def translate_ip(src_path=None):
            "From Coq Require Import ZArith Bool.",
            "Require Import CCP.Lib.Res CCP.Model.IPRef.",
            "Open Scope Z_scope.", "",
+           "Create HintDb genip.",
            "Definition mk_net (W : Z) (o : ipo) (p : Z) : result ipo :=",
-           "  if (0 <=? p) && (p <=? W) then Ok (set_plen o p) else Raise E_ValueError.", ""]
+           "  if (0 <=? p) && (p <=? W) then Ok (set_plen o p) else Raise E_ValueError.",
+           "#[global] Hint Unfold mk_net : genip.", ""]
     names = []
+    helpers = {"v4": {}, "v6": {}}
+    extra_defs = []
     for fam, cls, W in (("v4", "IPv4Obj", 32), ("v6", "IPv6Obj", 128)):
         if cls not in classes:
             raise Unsupported("class %s not found" % cls)
@@ -326,32 +467,40 @@ def translate_ip(src_path=None):
                 raise
             args = [a.arg for a in fn.args.args]
             gname = "gen_%s_%s" % (fam, suffix)
+            kw = dict(cls_node=classes[cls], helpers=helpers[fam], extra_defs=extra_defs)
             if kind == "prop":
                 if args != ["self"]:
                     raise Unsupported("%s.%s signature" % (cls, pyname))
-                tr = Tr(fam, cls, W, consts)
+                tr = Tr(fam, cls, W, consts, **kw)
                 sig, rty = "(self : ipo)", "Z"
             elif kind == "cmp":
                 if len(args) != 2 or args[0] != "self":
                     raise Unsupported("%s.%s signature" % (cls, pyname))
-                tr = Tr(fam, cls, W, consts)
+                tr = Tr(fam, cls, W, consts, **kw)
                 tr.objs.add(args[1])
                 sig, rty = "(self %s : ipo)" % args[1], "bool"
             elif kind == "arith":
                 if len(args) != 2 or args[0] != "self":
                     raise Unsupported("%s.%s signature" % (cls, pyname))
-                tr = Tr(fam, cls, W, consts, int_args=(args[1],))
+                tr = Tr(fam, cls, W, consts, int_args=(args[1],), **kw)
                 sig, rty = "(self : ipo) (%s : Z)" % args[1], "ipo"
             else:
                 if len(args) != 2 or args[0] != "self":
                     raise Unsupported("%s.%s signature" % (cls, pyname))
-                tr = Tr(fam, cls, W, consts, ret_self=True, int_args=(args[1],))
+                tr = Tr(fam, cls, W, consts, ret_self=True, int_args=(args[1],), **kw)
                 sig, rty = "(self : ipo) (%s : Z)" % args[1], "ipo"
             try:
                 body = tr.block(fn.body)
             except Unsupported as u:
                 raise Unsupported("%s.%s: %s" % (cls, pyname, u))
+            for hname, hdef in extra_defs:
+                out.append(hdef)
+                out.append("#[global] Hint Unfold %s : genip." % hname)
+                out.append("")
+                names.append(hname)
+            del extra_defs[:]
             out.append("Definition %s %s : result %s :=\n  %s." % (gname, sig, rty, body))
+            out.append("#[global] Hint Unfold %s : genip." % gname)
             out.append("")
             names.append(gname)
     for k in ("IPV4_MAXINT", "IPV6_MAXINT", "IPV4_MAX_PREFIXLEN", "IPV6_MAX_PREFIXLEN"):
